@@ -1,7 +1,7 @@
 ------------------------------- MODULE AllProps -------------------------------
 (* All property clauses, conjoined: what the trace specification evaluates at every recorded step. *)
-EXTENDS PropsCodec
+EXTENDS Conformance
 
 LeanProps == C07_Step /\ C09_Step /\ C10_Step /\ SyncStep
-StepProps == LedgerProps /\ C09_Step /\ C10_Step /\ StakingStep /\ MarketsStep /\ SyncStep /\ C28_Step /\ C23_Step
+StepProps == LedgerProps /\ C09_Step /\ C10_Step /\ StakingStep /\ MarketsStep /\ SyncStep /\ C28_Step /\ C23_Step /\ ConformanceStep
 =============================================================================
